@@ -226,6 +226,9 @@ func ruleLookaheadCovered(w *World, r *Report) {
 				covered++
 				continue
 			}
+			if opaquePredicateOn(u.ins.Block(), u.ins.X) {
+				continue // a dominating branch on a predicate over the same slice: not judged here
+			}
 			key := fmt.Sprintf("%s: %s[%s]", w.FnKey(fn), stableName(u.ins.X), exprOfOffset(u.ins.Index))
 			if why, ok := lookaheadExceptions[w.FnKey(fn)]; ok {
 				r.OK(key, w.InstrPos(u.ins), "reviewed exception: "+why)
@@ -354,4 +357,26 @@ func stableName(v ssa.Value) string {
 		return stableName(x.Tuple) + fmt.Sprintf("#%d", x.Index)
 	}
 	return "expr"
+}
+
+// opaquePredicateOn: some branch that dominates blk tests the result of a call that receives s (or a sub-slice of s):
+// a helper predicate may have established the bound in a way the window rule cannot see.
+func opaquePredicateOn(blk *ssa.BasicBlock, s ssa.Value) bool {
+	for _, cf := range dominatingConds(blk) {
+		for _, a := range condAtoms(cf.If.Cond, cf.Truth) {
+			c, ok := a.V.(*ssa.Call)
+			if !ok || builtinName(c.Common()) != "" {
+				continue
+			}
+			for _, arg := range c.Common().Args {
+				if arg == s {
+					return true
+				}
+				if sl, ok := arg.(*ssa.Slice); ok && sl.X == s {
+					return true
+				}
+			}
+		}
+	}
+	return false
 }
